@@ -9,6 +9,9 @@ looks at the set of open connections and probes the API (`execute_async`, `conne
 """
 import sys
 
+import itertools
+
+from vt.world import vworld
 from vt.world.vworld import World, VServer, HostSpec, VConnection   # noqa: F401  (imports the driver)
 from vt.world import wire
 from vt.vthreading import RT, VEvent
@@ -22,8 +25,8 @@ from vt.reqworld import FixedOrderPolicy
 
 # innermost driver function on the stack when a connection object is constructed -> who opened it
 CREATOR_BY_FUNC = (('_try_connect', 'control'), ('try_reconnect', 'probe'), ('_replace', 'replace'),
-                   ('run_add_or_renew_pool', 'pool'))
-POOL_KINDS = ('pool', 'replace')
+                   ('_add_conn_if_under_max', 'grow'), ('run_add_or_renew_pool', 'pool'))
+POOL_KINDS = ('pool', 'replace', 'grow')
 
 
 class RotatingPolicy(FixedOrderPolicy):
@@ -53,6 +56,23 @@ def _creator():
     return 'other'
 
 
+_BaseFuture = vworld.VFuture
+
+
+class DetFuture(_BaseFuture):
+    """Executor future whose hash is its creation number in this world (times the world's `future_order`):
+    the driver keeps futures in sets (Session._initial_connect_futures) and iterates them, and with the
+    default id()-based hash the iteration order would change from run to run."""
+    def __init__(self, label=''):
+        _BaseFuture.__init__(self, label)
+        w = RT.world
+        n = next(w.c45_futseq)
+        self._hseq = n if w.c45_future_order > 0 else 1000000 - n
+
+    def __hash__(self):
+        return self._hseq
+
+
 class Tracker(object):
     """Shutdown phase bookkeeping of one world."""
     def __init__(self):
@@ -61,6 +81,17 @@ class Tracker(object):
         self.at_shutdown = {}     # flags describing the state the shutdown was injected into
         self.stage2 = False       # session shutdown already followed by the cluster's
         self.shutdown_exc = None
+        self.activity = {}        # thread -> phase in which the executor task it is running was started
+
+    @staticmethod
+    def me():
+        s = RT.sched
+        return s.current.tid if s is not None and s.current is not None else 'main'
+
+    def activity_phase(self):
+        """phase in which the activity that is running now began: for code inside an executor task the
+        phase at the start of the task, else the current phase"""
+        return self.activity.get(self.me(), self.phase)
 
 
 class _HandshakeEvent(VEvent):
@@ -80,7 +111,8 @@ class _HandshakeEvent(VEvent):
 class C45Conn(VConnection):
     creator = 'other'
     opened = False            # the server accepted the TCP connection
-    open_phase = None
+    open_phase = None         # shutdown phase when the connection object was constructed
+    activity_phase = None     # shutdown phase when the executor task that constructed it was started
     handshake_phase = 'never'
     _c45_ev = None
 
@@ -96,6 +128,7 @@ class C45Conn(VConnection):
         w = RT.world
         self.creator = 'control' if kw.get('is_control_connection') else _creator()
         self.open_phase = w.c45.phase
+        self.activity_phase = w.c45.activity_phase()
         self.world = w
         VConnection.__init__(self, *a, **kw)     # raises when the server refuses the connection
         self.opened = True
@@ -115,6 +148,10 @@ class C45World(object):
         self.srv = VServer([HostSpec('10.0.0.%d' % (i + 1)) for i in range(n)])
         self.w = World(self.srv, trace=p.get('trace', False))
         self.w.c45 = self.trk = Tracker()
+        self.w.c45_futseq = itertools.count(1)
+        self.w.c45_future_order = p.get('future_order', 1)     # +1: sets iterate oldest future first, -1: newest first
+        self._saved_future = _BaseFuture
+        vworld.VFuture = DetFuture
         self._saved_threshold = C45Conn.orphaned_threshold
         self.w.__enter__()
         try:
@@ -126,6 +163,14 @@ class C45World(object):
                 reconnection_policy=ConstantReconnectionPolicy(2.0, max_attempts=p.get('reconnect_attempts', 3)),
                 status_event_refresh_window=0, topology_event_refresh_window=0,
                 protocol_version=p.get('protocol_version', 4))
+            if p.get('legacy_pool'):
+                # protocol v1/v2: HostConnectionPool with core..max connections per host, grown on demand
+                from cassandra.policies import HostDistance
+                core, mx, max_req = p['legacy_pool']
+                self.cluster.set_min_requests_per_connection(HostDistance.LOCAL, 0)
+                self.cluster.set_max_requests_per_connection(HostDistance.LOCAL, max_req)
+                self.cluster.set_core_connections_per_host(HostDistance.LOCAL, core)
+                self.cluster.set_max_connections_per_host(HostDistance.LOCAL, mx)
             self.session = None
             self.futures = []
             self.after = []           # outcomes of requests issued after the shutdown
@@ -151,6 +196,7 @@ class C45World(object):
 
     def close(self):
         C45Conn.orphaned_threshold = self._saved_threshold
+        vworld.VFuture = self._saved_future
         self.w.__exit__()
 
     # ------------------------------------------------------------------ environment / client events
@@ -196,11 +242,21 @@ class C45World(object):
         self.srv.hosts.append(hs)
         self.srv.push_event(self.control(), wire.event_topology('NEW_NODE', hs.address))
 
+    def run_task(self, i=0):
+        """Run the i-th queued executor task, remembering in which shutdown phase it was started."""
+        trk = self.trk
+        me = trk.me()
+        trk.activity[me] = trk.phase
+        try:
+            self.w.run_task(i)
+        finally:
+            trk.activity.pop(me, None)
+
     def apply(self, ev):
         """One explorer event (plain data) applied to this world."""
         k = ev[0]
         if k == 'task':
-            self.w.run_task(ev[1])
+            self.run_task(ev[1])
         elif k == 'sched':
             self.fire_next_sched()
         elif k == 'timer':
@@ -241,7 +297,8 @@ class C45World(object):
             cl.control_connection._reconnection_handler is not None
         fl['pool_creation_pending'] = any('run_add_or_renew_pool' in l for l in labels)
         pools = list(se._pools.values()) if se is not None else []
-        fl['replacement_pending'] = any(getattr(p, '_is_replacing', False) for p in pools) or any('_replace' in l for l in labels)
+        fl['replacement_pending'] = any(getattr(p, '_is_replacing', False) or getattr(p, '_scheduled_for_creation', 0) for p in pools) or \
+            any('_replace' in l or '_create_new_connection' in l for l in labels)
         fl['trashed_connection'] = any(getattr(p, '_trash', None) for p in pools)
         fl['connection_mid_handshake'] = any(c.opened and not c.is_closed and c.handshake_phase == 'never' for c in w.conns)
         fl['tasks_queued'] = bool(w.tasks)
@@ -275,7 +332,7 @@ class C45World(object):
             elif srv.pending:
                 srv.answer(self.pending()[0], deliver=True)
             elif w.tasks:
-                w.run_task(0)
+                self.run_task(0)
             elif w.thread_tasks:
                 w.run_thread_task(0)
             elif w.sched_tasks and fired < max_sched:
@@ -298,17 +355,23 @@ class C45World(object):
         return [c for c in self.w.conns if c.opened and not c.is_closed and (kinds is None or c.creator in kinds)]
 
     def where_referenced(self, c):
+        """-> (class of holder for the fingerprint, description)"""
         cl, se = self.cluster, self.session
-        out = []
         if cl.control_connection._connection is c:
-            out.append('ControlConnection._connection')
+            return 'installed-as-control-connection', 'ControlConnection._connection (control connection shut down: %s)' % cl.control_connection._is_shutdown
         for s in ([se] if se is not None else []) + [x for x in cl.sessions if x is not se]:
             for host, pool in list(s._pools.items()):
-                if getattr(pool, '_connection', None) is c:
-                    out.append('%s pool._connection (pool.is_shutdown=%s, session.is_shutdown=%s)' % (host, pool.is_shutdown, s.is_shutdown))
+                if getattr(pool, '_connection', None) is c or c in getattr(pool, '_connections', ()):
+                    d = '%s pool._connection (pool.is_shutdown=%s, session.is_shutdown=%s, cluster.is_shutdown=%s)' % (
+                        host, pool.is_shutdown, s.is_shutdown, cl.is_shutdown)
+                    if pool.is_shutdown:
+                        return 'held-by-shut-down-pool', d
+                    if s.is_shutdown:
+                        return 'held-by-live-pool-of-shut-down-session', d
+                    return 'held-by-live-session-of-shut-down-cluster', d
                 if c in (getattr(pool, '_trash', None) or ()):
-                    out.append('%s pool._trash' % host)
-        return out or ['referenced by nobody']
+                    return 'in-pool-trash', '%s pool._trash' % host
+        return 'dropped-unclosed', 'referenced by no pool, trash set or control connection'
 
     def probe_request(self):
         """-> ('raised'|'error'|'accepted'|'pending', detail) for a request issued now"""
@@ -375,15 +438,18 @@ class C45World(object):
         else:
             mine = None
         for c in self.open_conns(mine):
-            part.violation('C45/%s/connection-left-open/%s' % (kind, c.creator),
+            how, desc = self.where_referenced(c)
+            part.violation('C45/%s/connection-left-open/%s/%s' % (kind, c.creator, how),
                            'after %s shutdown and drain %s is still open: %s; all: %s' % (
-                               kind, conn_name(c), '; '.join(self.where_referenced(c)),
-                               ' '.join(conn_name(x) for x in w.conns if x.opened)), data)
+                               kind, conn_name(c), desc, ' '.join(conn_name(x) for x in w.conns if x.opened)), data)
         after = {'cluster': ('returned',), 'session': ('returned', 'in2', 'returned2'), 'session-then-cluster': ('returned2',)}[kind]
+        # a task that was already running when the shutdown was called may still open its connection (it
+        # must then close it: clause above); an activity STARTED after the call returned must not open any
         for c in w.conns:
-            if c.open_phase in after and (mine is None or c.creator in mine):
+            if c.activity_phase in after and (mine is None or c.creator in mine):
                 part.violation('C45/%s/connection-opened-after-shutdown/%s' % (kind, c.creator),
-                               'a connection was opened after %s.shutdown() had returned: %s' % (trk.kind, conn_name(c)), data)
+                               'a connection was opened by an activity that started after %s.shutdown() had returned: %s' % (
+                                   trk.kind, conn_name(c)), data)
         if kind != 'session':
             left = [t[4] for t in w.tasks]
             if left:
@@ -413,6 +479,8 @@ def focus_codes():
         cl.ControlConnection._submit, cl.ControlConnection.reconnect,
         cl._ControlReconnectionHandler.try_reconnect, cl._ControlReconnectionHandler.on_reconnection,
         pool.HostConnection.__init__, pool.HostConnection._replace, pool.HostConnection.shutdown,
+        pool.HostConnectionPool.__init__, pool.HostConnectionPool._create_new_connection,
+        pool.HostConnectionPool._add_conn_if_under_max, pool.HostConnectionPool.shutdown,
         pool._ReconnectionHandler.run, pool._ReconnectionHandler.start, pool._ReconnectionHandler.cancel,
         pool._HostReconnectionHandler.try_reconnect, pool._HostReconnectionHandler.on_reconnection,
     ]
@@ -443,12 +511,13 @@ def run_schedule(st, s, clients, nworkers=1):
                 return
             busy[0] += 1
             try:
-                w.run_task(0)
+                st.run_task(0)
             finally:
                 busy[0] -= 1
             s.point('task.done')
 
     def reactor():
+        s.current.waiting = None
         while True:
             if not srv.outbox:
                 s.block(lambda: bool(srv.outbox) or stop[0], None, 'reactor idle')
@@ -466,6 +535,7 @@ def run_schedule(st, s, clients, nworkers=1):
         return body
 
     def janitor():
+        s.current.waiting = None
         s.block(lambda: len(done) == len(clients) and busy[0] == 0 and not w.tasks and not srv.outbox, None, 'quiescence')
         stop[0] = True
 
@@ -473,8 +543,10 @@ def run_schedule(st, s, clients, nworkers=1):
         s.spawn(client(name, fn), name)
     for i in range(nworkers):
         s.spawn(worker, 'worker%d' % i)
-    s.spawn(reactor, 'reactor')
-    s.spawn(janitor, 'janitor')
+    # reactor and janitor are born waiting (a thread that has not started counts as enabled otherwise, which
+    # would offer it as an alternative at every point although it has nothing to do)
+    s.spawn(reactor, 'reactor').waiting = lambda: bool(srv.outbox) or stop[0]
+    s.spawn(janitor, 'janitor').waiting = lambda: len(done) == len(clients) and busy[0] == 0 and not w.tasks and not srv.outbox
     try:
         s.run()
     finally:
